@@ -38,6 +38,29 @@ fn clock() -> &'static Clock {
 /// only for measuring elapsed time between two reads, never as a timestamp to
 /// compare against another machine's clock.
 pub fn now_ms() -> u64 {
+    #[cfg(feature = "verif-hooks")]
+    if let Some(t) = verif_clock::get() {
+        return t;
+    }
     let c = clock();
     c.base_ms + c.anchor.elapsed().as_millis() as u64
+}
+
+/// Virtual clock override for the out-of-tree checker (feature `verif-hooks`).
+#[cfg(feature = "verif-hooks")]
+pub mod verif_clock {
+    use std::cell::Cell;
+
+    thread_local! {
+        static NOW: Cell<Option<u64>> = const { Cell::new(None) };
+    }
+
+    /// Make `now_ms()` return `t` on this thread (`None` restores the real clock).
+    pub fn set(t: Option<u64>) {
+        NOW.with(|c| c.set(t));
+    }
+
+    pub fn get() -> Option<u64> {
+        NOW.with(|c| c.get())
+    }
 }
